@@ -117,13 +117,27 @@ def finish(
     known = _load_known()
     violations = []
     known_hits = []
+    consumed: set = set()
+    pending = []
     for r in results:
         for f in r.findings:
             k = _match_known(f, known)
             if k is not None:
                 known_hits.append((f, k))
+                consumed.add(id(k))
             else:
-                violations.append(f)
+                pending.append(f)
+    # A recorded construct that a refactoring moved to another function of the same file (a closure lifted to module level
+    # and renamed) is still the recorded finding: an entry not matched exactly may match once by rule + file + construct.
+    # Every entry is used at most once, so an additional site with the same construct is reported.
+    for f in pending:
+        k = next((k_ for k_ in known if k_.get("status") == "known" and id(k_) not in consumed and k_.get("rule") == f.rule
+                  and k_.get("key", {}).get("file") == f.file and k_.get("key", {}).get("construct") == f.construct), None)
+        if k is not None:
+            known_hits.append((f, k))
+            consumed.add(id(k))
+        else:
+            violations.append(f)
     # fail closed on vacuous rules
     vacuous = [r for r in results if r.obligations < r.min_instances]
 
